@@ -126,8 +126,20 @@ func tfSchema() *schema.BodySchema {
 			},
 		},
 	}
+	// a block type whose static body is what schema.NewBodySchema() builds (empty, non-nil maps): every
+	// attribute comes from the body the label selects
+	plug := &schema.BlockSchema{Labels: []*schema.LabelSchema{{Name: "kind", IsDepKey: true}}, Body: schema.NewBodySchema(),
+		DependentBody: map[schema.SchemaKey]*schema.BodySchema{}}
+	for _, k := range []string{"aws", "gcp"} {
+		plug.DependentBody[schema.NewSchemaKey(schema.DependencyKeys{Labels: []schema.LabelDependent{{Index: 0, Value: k}}})] = &schema.BodySchema{
+			Attributes: map[string]*schema.AttributeSchema{
+				k + "_only": {IsOptional: true, Constraint: schema.LiteralType{Type: cty.String}},
+				"common":    {IsOptional: true, Constraint: schema.LiteralType{Type: cty.Number}},
+			}}
+	}
 	return &schema.BodySchema{
 		Blocks: map[string]*schema.BlockSchema{
+			"plug": plug,
 			"data": data,
 			"variable": {
 				Labels:  []*schema.LabelSchema{{Name: "name"}},
